@@ -577,6 +577,8 @@ def main(argv):
                 "receivers x SNDHWM/RCVHWM {1,2,7,100} x timeouts {-1,0,50,200 ms} x tcp/inproc x peer never/slow/fast, 64 KiB payloads; "
                 "non-trivial = a call made at the high-water mark (A) / a classified answer (D); distinct by case JSON")
     C.proof_stage(res, PROP, ["theories/Corr/C14Corr.vo"])
+    from . import optlib
+    optlib.options_stage(res, PROP, [28, 27, 23, 24], n_quick=140, theorems_note='C14_sndtimeo_option_semantics, C14_rcvtimeo_option_semantics, C14_timeo_option_get_after_set, C14_hwm_option_semantics, C14_option_frame, C14_sndtimeo_zero_option_immediate, C14_sndtimeo_positive_option, C14_rcvtimeo_option_extremes, C14_option_defaults')
     rng = random.Random(seed)
     n_if, n_rc = (260, 120) if tier == "quick" else (4000, 1500)
     a_cases = gen_iface(rng, n_if) + gen_recv(rng, n_rc) + C.load_corpus(PROP, "cases")
